@@ -373,16 +373,10 @@ def run(ctx):
     # the poison flag must survive designer edits: module._add's frame (nothing but the namespace views changes)
     from contracts import c_module as cm
     ctx.verify(cm.engine(), [cm.CONTRACTS[0]], min_obligations={cm.CONTRACTS[0].key: 15})
-    bad = ce.audit_cache_ownership()
-    ctx.obligations += 1
-    if bad:
-        from vcheck.core import Violation
-        ctx.violations.append(Violation("hdl21.elab:cache-ownership", f"class-level cache or _elab_error touched "
-                              f"outside ElabPass: {bad[:3]}", {"property": "C08", "obligation": "frame/cache-ownership",
-                                                              "offenders": bad}, False))
-    else:
-        ctx.discharged += 1
-        ctx.by_backend["ast-audit"] = ctx.by_backend.get("ast-audit", 0) + 1
+    bad, escapes = ce.audit_cache_ownership(with_escapes=True)
+    for e_ in escapes:
+        ctx.unsupported.append(("hdl21.elab:cache-ownership", f"the pass cache is bound to another name or handed to a call at {e_[0]}:{e_[1]}: the ownership audit cannot follow it"))
+    ctx.frame_audit("hdl21.elab:cache-ownership", bad, "a class-level pass cache or _elab_error is written outside ElabPass")
     ctx.assumptions += [
         "overriding pass hooks (elaborate_module etc. in the pass sub-classes) obey the virtual contract: they may "
         "raise anything, leave pending/stack as found and only grow done (they do not touch the cache: audited)",
